@@ -71,11 +71,13 @@ fn main() {
                 }
                 // map iteration order as a permutation of the distinct accepted messages
                 // in first-acceptance order (which is the model's insertion order)
+                // (an entry whose message was never accepted is reported as `stray`, not a crash)
                 let order: Vec<usize> = qc
                     .map
                     .keys()
-                    .map(|m| firsts.iter().position(|x| x == m).unwrap())
+                    .filter_map(|m| firsts.iter().position(|x| x == m))
                     .collect();
+                let stray = qc.map.len() - order.len();
                 let signers: Vec<Value> = qc.map.values().map(bits_obs).collect();
                 let weight = catch(std::panic::AssertUnwindSafe(|| qc.weight(&sched)));
                 let ver = catch(std::panic::AssertUnwindSafe(|| qc.verify(g, e, &sched)));
@@ -89,7 +91,7 @@ fn main() {
                     outcome(ver, unit, tqc_verify_err),
                     match hv { Ok(h) => json!([0, opt_header(h, &w, ids)]), Err(m) => json!([1, panic_code(&m)]) },
                     match hq { Some(x) => json!([x]), None => json!([]) },
-                ], "order": order})
+                ], "order": order, "stray": stray})
             }
             "implied" => {
                 let (j, order) = w.justification(&c["j"]);
